@@ -260,11 +260,12 @@ theorem Good.setParams {d : Desc} (h : Good d) (p : Dict) : Good (GuiRepr.setKey
 
 theorem edit_apply_ok {d : Desc} (h : Good d) (l : JV) (hl : getKey d "location" = some l) (e : Edit)
     (hs : e.simple = true) :
-    ∃ d', e.apply d = .ok d' ∧ Good d' ∧ getKey d' "location" = some (finalLocation [e] l) := by
+    ∃ d', e.apply d = .ok d' ∧ Good d' ∧ getKey d' "location" = some (finalLocation [e] l) ∧
+      getKey d' "type" = getKey d "type" := by
   cases e with
   | set k v =>
-    have hk : k ≠ "params" := by simpa [Edit.simple] using hs
-    refine ⟨_, rfl, h.setKey k v hk, ?_⟩
+    have hk : k ≠ "params" ∧ k ≠ "type" := by simpa [Edit.simple] using hs
+    refine ⟨_, rfl, h.setKey k v hk.1, ?_, getKey_setKey_ne _ _ _ _ (Ne.symm hk.2)⟩
     unfold finalLocation finalLocation
     by_cases hkl : k = "location"
     · subst hkl; simp [getKey_setKey_self]
@@ -277,7 +278,8 @@ theorem edit_apply_ok {d : Desc} (h : Good d) (l : JV) (hl : getKey d "location"
     | some pv =>
       cases pv with
       | obj p =>
-        refine ⟨setKey d "params" (.obj (setKey p k v)), by simp only [Edit.apply, hp], h.setParams _, ?_⟩
+        refine ⟨setKey d "params" (.obj (setKey p k v)), by simp only [Edit.apply, hp], h.setParams _, ?_,
+          getKey_setKey_ne _ _ _ _ (by decide)⟩
         rw [getKey_setKey_ne _ _ _ _ (by decide), hl]; rfl
       | null => have := h.params; simp [hp, isObj] at this
       | bool _ => have := h.params; simp [hp, isObj] at this
@@ -285,7 +287,7 @@ theorem edit_apply_ok {d : Desc} (h : Good d) (l : JV) (hl : getKey d "location"
       | arr _ => have := h.params; simp [hp, isObj] at this
       | str _ => have := h.params; simp [hp, isObj] at this
   | newParams p =>
-    refine ⟨_, rfl, h.setParams _, ?_⟩
+    refine ⟨_, rfl, h.setParams _, ?_, getKey_setKey_ne _ _ _ _ (by decide)⟩
     rw [getKey_setKey_ne _ _ _ _ (by decide), hl]; rfl
   | scaleVertices b => simp [Edit.simple] at hs
 
@@ -306,16 +308,17 @@ theorem finalLocation_cons (e : Edit) (es : List Edit) (l : JV) :
     leaves `location` as the last assignment to it (or untouched) -/
 theorem applyEdits_ok : ∀ (es : List Edit) (d : Desc) (l : JV), Good d → getKey d "location" = some l →
     es.all Edit.simple = true →
-    ∃ d', applyEdits es d = .ok d' ∧ Good d' ∧ getKey d' "location" = some (finalLocation es l) := by
+    ∃ d', applyEdits es d = .ok d' ∧ Good d' ∧ getKey d' "location" = some (finalLocation es l) ∧
+      getKey d' "type" = getKey d "type" := by
   intro es
   induction es with
-  | nil => intro d l h hl _; exact ⟨d, rfl, h, hl⟩
+  | nil => intro d l h hl _; exact ⟨d, rfl, h, hl, rfl⟩
   | cons e es ih =>
     intro d l h hl hs
     simp only [List.all_cons, Bool.and_eq_true] at hs
-    obtain ⟨d1, h1, hg1, hl1⟩ := edit_apply_ok h l hl e hs.1
-    obtain ⟨d', h2, hg2, hl2⟩ := ih d1 _ hg1 hl1 hs.2
-    refine ⟨d', ?_, hg2, ?_⟩
+    obtain ⟨d1, h1, hg1, hl1, ht1⟩ := edit_apply_ok h l hl e hs.1
+    obtain ⟨d', h2, hg2, hl2, ht2⟩ := ih d1 _ hg1 hl1 hs.2
+    refine ⟨d', ?_, hg2, ?_, ht2.trans ht1⟩
     · unfold applyEdits at h2 ⊢
       rw [List.foldlM_cons, h1]; exact h2
     · rw [hl2, finalLocation_cons e es l]
